@@ -211,7 +211,11 @@ CLAIMS = {
          "the trace the generator itself computes for the source program (labels in evaluation order, final Ref value, failure point). "
          "Operands of every binary / logical form are also placed inside ten nearly-trivial shapes (field of a returned struct or of a struct "
          "literal, tuple projection, enum payload via match, double negation, nested && / ||, array_get / vec_get of a call, int32_to_string of a "
-         "call, call of a closure variable) with the left operand of && / || deciding and not deciding. Translator: the guard of the "
+         "call, call of a closure variable) with the left operand of && / || deciding and not deciding. Besides the all-effectful plans, every "
+         "form is run with ONE effectful hole (print, failing division; Ref update for the logical forms) among EFFECT-FREE neighbours of each "
+         "syntactic class (variable, operator tree over variables such as the guard idiom `d != 0 && n / d > k`, field of a struct variable, "
+         "unary on a variable, tuple projection), so that with a failing division the whole expression is call-free; plus nested compositions "
+         "mixing effectful and effect-free holes. Translator: the guard of the "
          "EBinary{And|Or} arm and the immediates of anf_imm are regenerated from anf.rs (Gen/AnfGuards.lean); the model's trivialRhs reads the "
          "table and trivialRhs_eq_isAtom, on which the preservation proofs rest, re-checks it. Further forms destructure literal right-hand sides "
          "(tuple, nested tuple, struct literal, constructor application; let and match; every mix of named and `_` components, an effect under "
